@@ -146,59 +146,59 @@ theorem modes_errCorr_agg {m : DebugTrail} {e E : LErr} {errs : List LErr} (hE :
 /-! ### pointwise relations between item lists -/
 
 /-- pointwise relation between two lists of equal length -/
-inductive All₂ {α β : Type} (R : α → β → Prop) : List α → List β → Prop
-  | nil : All₂ R [] []
-  | cons {a : α} {b : β} {as : List α} {bs : List β} : R a b → All₂ R as bs → All₂ R (a :: as) (b :: bs)
+inductive Pointwise₂ {α β : Type} (R : α → β → Prop) : List α → List β → Prop
+  | nil : Pointwise₂ R [] []
+  | cons {a : α} {b : β} {as : List α} {bs : List β} : R a b → Pointwise₂ R as bs → Pointwise₂ R (a :: as) (b :: bs)
 
 /-- same trail elements, outcomes related by `R` -/
 def ItemsRel (R : Outcome Val → Outcome Val → Prop)
     (a b : List (Option TrailEl × Outcome Val)) : Prop :=
-  All₂ (fun x y => x.1 = y.1 ∧ R x.2 y.2) a b
+  Pointwise₂ (fun x y => x.1 = y.1 ∧ R x.2 y.2) a b
 
 section transport
 variable {R : Outcome Val → Outcome Val → Prop}
 
 theorem modes_forall₂_map (f g : Val → Outcome Val) (xs : List Val)
-    (h : ∀ x ∈ xs, R (f x) (g x)) : All₂ R (xs.map f) (xs.map g) := by
+    (h : ∀ x ∈ xs, R (f x) (g x)) : Pointwise₂ R (xs.map f) (xs.map g) := by
   induction xs with
-  | nil => exact All₂.nil
+  | nil => exact Pointwise₂.nil
   | cons x xs ih =>
-    exact All₂.cons (h x (by simp)) (ih fun y hy => h y (by simp [hy]))
+    exact Pointwise₂.cons (h x (by simp)) (ih fun y hy => h y (by simp [hy]))
 
-theorem modes_itemsRel_idx {os os' : List (Outcome Val)} (h : All₂ R os os') :
+theorem modes_itemsRel_idx {os os' : List (Outcome Val)} (h : Pointwise₂ R os os') :
     ItemsRel R (idxItems os) (idxItems os') := by
   unfold idxItems ItemsRel
-  suffices ∀ k, All₂ (fun x y => x.1 = y.1 ∧ R x.2 y.2)
+  suffices ∀ k, Pointwise₂ (fun x y => x.1 = y.1 ∧ R x.2 y.2)
       ((os.zipIdx k).map fun (o, i) => (some (TrailEl.idx i), o))
       ((os'.zipIdx k).map fun (o, i) => (some (TrailEl.idx i), o)) from this 0
   induction h with
-  | nil => intro k; exact All₂.nil
-  | cons hab _ ih => intro k; exact All₂.cons ⟨rfl, hab⟩ (ih (k + 1))
+  | nil => intro k; exact Pointwise₂.nil
+  | cons hab _ ih => intro k; exact Pointwise₂.cons ⟨rfl, hab⟩ (ih (k + 1))
 
 theorem modes_forall₂_zipApply (F G : Ty → Val → Outcome Val) (elems : List Ty) (xs : List Val)
     (h : ∀ p ∈ elems.zip xs, R (F p.1 p.2) (G p.1 p.2)) :
-    All₂ R (zipApply (elems.map F) xs) (zipApply (elems.map G) xs) := by
+    Pointwise₂ R (zipApply (elems.map F) xs) (zipApply (elems.map G) xs) := by
   induction elems generalizing xs with
-  | nil => exact All₂.nil
+  | nil => exact Pointwise₂.nil
   | cons t ts ih =>
     cases xs with
-    | nil => exact All₂.nil
+    | nil => exact Pointwise₂.nil
     | cons x xs =>
       simp only [List.map_cons, zipApply]
-      exact All₂.cons (h (t, x) (by simp)) (ih xs fun p hp => h p (by simp [hp]))
+      exact Pointwise₂.cons (h (t, x) (by simp)) (ih xs fun p hp => h p (by simp [hp]))
 
 theorem modes_itemsRel_dict (vf : Bool) (k v k' v' : Val → Outcome Val) (kvs : List (Val × Val))
     (h : ∀ p ∈ kvs, R (k p.1) (k' p.1) ∧ R (v p.2) (v' p.2)) :
     ItemsRel R (dictItems vf k v kvs) (dictItems vf k' v' kvs) := by
   induction kvs with
-  | nil => exact All₂.nil
+  | nil => exact Pointwise₂.nil
   | cons p rest ih =>
     obtain ⟨a, b⟩ := p
     have hp := h (a, b) (by simp)
     have ih' := ih fun q hq => h q (by simp [hq])
     cases vf
-    · exact All₂.cons ⟨rfl, hp.1⟩ (All₂.cons ⟨rfl, hp.2⟩ ih')
-    · exact All₂.cons ⟨rfl, hp.2⟩ (All₂.cons ⟨rfl, hp.1⟩ ih')
+    · exact Pointwise₂.cons ⟨rfl, hp.1⟩ (Pointwise₂.cons ⟨rfl, hp.2⟩ ih')
+    · exact Pointwise₂.cons ⟨rfl, hp.2⟩ (Pointwise₂.cons ⟨rfl, hp.1⟩ ih')
 
 theorem modes_itemsRel_model (fl fl' : Field → Val → Outcome Val) (kvs : List (Val × Val))
     (missing : List String) (hok : ∀ v, R (.ok v) (.ok v))
@@ -208,18 +208,18 @@ theorem modes_itemsRel_model (fl fl' : Field → Val → Outcome Val) (kvs : Lis
     (h : ∀ f ∈ fields, ∀ v, Val.lookup (.str f.name) kvs = some v → R (fl f v) (fl' f v)) :
     ItemsRel R (modelItems fl kvs missing fields reported) (modelItems fl' kvs missing fields reported) := by
   induction fields generalizing reported with
-  | nil => exact All₂.nil
+  | nil => exact Pointwise₂.nil
   | cons f rest ih =>
     have ih' := fun r => ih r fun g hg => h g (by simp [hg])
     unfold modelItems
     cases hl : Val.lookup (.str f.name) kvs with
-    | some v => exact All₂.cons ⟨rfl, h f (by simp) v hl⟩ (ih' _)
+    | some v => exact Pointwise₂.cons ⟨rfl, h f (by simp) v hl⟩ (ih' _)
     | none =>
       by_cases hr : f.required
       · by_cases hrep : reported
         · simp only [hr, hrep, if_true]; exact ih' _
-        · simp only [hr, hrep, if_true]; exact All₂.cons ⟨rfl, herr⟩ (ih' _)
-      · simp only [hr]; exact All₂.cons ⟨rfl, hok _⟩ (ih' _)
+        · simp only [hr, hrep, if_true]; exact Pointwise₂.cons ⟨rfl, herr⟩ (ih' _)
+      · simp only [hr]; exact Pointwise₂.cons ⟨rfl, hok _⟩ (ih' _)
 
 end transport
 
@@ -446,9 +446,9 @@ theorem modes_itemsRel_dumpModel {R : Outcome Val → Outcome Val → Prop}
     (fs : List (String × Val)) (h : ∀ f ∈ fields, ∀ v, R (fd f v) (fd' f v)) :
     ItemsRel R (dumpModelItems fields fd fs) (dumpModelItems fields fd' fs) := by
   induction fields with
-  | nil => exact All₂.nil
+  | nil => exact Pointwise₂.nil
   | cons f rest ih =>
-    refine All₂.cons ⟨rfl, ?_⟩ (ih fun g hg => h g (by simp [hg]))
+    refine Pointwise₂.cons ⟨rfl, ?_⟩ (ih fun g hg => h g (by simp [hg]))
     simp only
     cases getField f.name fs with
     | none => exact hesc _
